@@ -82,7 +82,7 @@ def nodes_by_path(root):
     return out
 
 
-def compare_with_fresh(root, rng, nq):
+def compare_with_fresh(root, rng, nq, focus_path=None):
     """returns a difference description or None"""
     import fst
     try:
@@ -96,6 +96,27 @@ def compare_with_fresh(root, rng, nq):
     paths = sorted(live)
     if nq and len(paths) > nq:
         paths = rng.sample(paths, nq)
+    if focus_path is not None:
+        # always include the chain of nodes from the root down to where the edit happened
+        node = root
+        chain = [node]
+        try:
+            a = root.a
+            for f, i in focus_path:
+                a = getattr(a, f)
+                if i is not None:
+                    a = a[i]
+                if getattr(a, 'f', None) is not None:
+                    chain.append(a.f)
+        except Exception:
+            pass
+        extra = []
+        for f in chain:
+            try:
+                extra.append(repr(root.child_path(f)))
+            except Exception:
+                pass
+        paths = [p for p in extra if p in live] + [p for p in paths if p not in extra]
     for p in paths:
         a, b = live[p], new[p]
         if type(a.a) is not type(b.a):
@@ -107,6 +128,29 @@ def compare_with_fresh(root, rng, nq):
     if root.root is not root:
         return {'why': 'root.root is not root'}
     return None
+
+
+CACHED_QUERIES = ['loc', 'bloc', 'pars', 'pars_shared_false', 'own_src', 'viewlens']
+
+
+def warm_targeted(root, op):
+    """ask every cache-filling query on the edit target, all its ancestors and its siblings (the nodes whose caches the edit
+    must flush)"""
+    try:
+        n = edits.node_at(root.a, op['path']).f
+    except Exception:
+        return
+    seen = []
+    cur = n
+    while cur is not None:
+        seen.append(cur)
+        cur = cur.parent
+    if n.parent is not None:
+        seen += list(n.parent.walk(True, self_=False, recurse=False))
+    seen += list(n.walk(True, self_=False, recurse=False))
+    for f in seen:
+        for name in CACHED_QUERIES:
+            q(f, name)
 
 
 def warm(root, rng, k):
@@ -140,6 +184,9 @@ def stage_oracle(ctx: Ctx, progs):
                 op = edits.gen_op(r2, root)
                 if not op:
                     continue
+                if schedule == 'warm':
+                    warm_targeted(root, op)
+                anc_paths = [repr(op['path'][:i]) for i in range(len(op['path']) + 1)]
                 r, e = edits.apply(root, op)
                 hist.append({'op': edits.op_brief(op), 'result': r})
                 if r != 'ok':
@@ -148,7 +195,7 @@ def stage_oracle(ctx: Ctx, progs):
                 if id(root) != rid:
                     bad = {'why': 'root identity changed'}
                 else:
-                    bad = compare_with_fresh(root, rq, nq)
+                    bad = compare_with_fresh(root, rq, nq, op['path'])
                 if bad:
                     sig = f'query|{bad.get("query", bad["why"][:30])}|{bad.get("node", "")}|{schedule}'
                     if 'positional argument follows keyword argument' in str(bad.get('error', '')):
@@ -163,6 +210,40 @@ def stage_oracle(ctx: Ctx, progs):
         if len(results) == 2 and results[0] is not None and results[1] is not None and results[0] != results[1]:
             ctx.violation('schedule-dependent', 'the result of an edit script depends on which read-only queries were made between the edits',
                           {'start_src': src, 'script_seed': seed, 'src_warm': results[0][0], 'src_cold': results[1][0]})
+
+
+def stage_accessor_caches(ctx: Ctx, progs):
+    """comment / docstring accessors after warming the caches of the statement, its ancestors and siblings"""
+    import fst
+    rng = ctx.rng
+    cases = []
+    for pi, src in enumerate(progs):
+        for n in ast.walk(ast.parse(src)):
+            if isinstance(n, ast.stmt):
+                cases.append((pi, edits.path_of(ast.parse(src), n) if False else None, n.lineno, n.col_offset, type(n).__name__))
+    rng.shuffle(cases)
+    for pi, _, lineno, col, tname in cases[:ctx.scale(250, 4000)]:
+        src = progs[pi]
+        root = fst.FST(src, 'exec')
+        tgt = next((x for x in ast.walk(root.a) if isinstance(x, ast.stmt) and x.lineno == lineno and x.col_offset == col and type(x).__name__ == tname), None)
+        if tgt is None:
+            continue
+        path = edits.path_of(root.a, tgt)
+        how = rng.choice(['line_comment', 'line_comment', 'docstr'])
+        op = {'kind': 'put_line_comment' if how == 'line_comment' else 'put_docstr', 'path': path, 'form': 'src', 'options': {},
+              'comment': rng.choice(['x', 'a much longer replacement comment', None, 'ü']), 'text': rng.choice(['d', 'long\ndoc string', None])}
+        if how == 'docstr' and not isinstance(tgt, (ast.FunctionDef, ast.AsyncFunctionDef, ast.ClassDef)):
+            continue
+        warm_targeted(root, op)
+        r, e = edits.apply(root, op)
+        if r != 'ok':
+            continue
+        ctx.tick(('acc', pi, lineno, how, op['comment'], op['text']), 'accessor:' + how)
+        bad = compare_with_fresh(root, rng, 10, path)
+        if bad:
+            ctx.violation(f'query|{bad.get("query", bad["why"][:30])}|{bad.get("node", "")}|accessor:{how}',
+                          'after a comment/docstring accessor put, a query answers differently from a fresh tree (stale cache)',
+                          {'start_src': src, 'op': edits.op_brief(op), 'src_now': root.src, **bad})
 
 
 def stage_cache_corr(ctx: Ctx):
@@ -222,6 +303,7 @@ def run(ctx: Ctx):
     run_guarded(ctx, stage_cache_corr)
     progs = [p for p in corpus(ctx.rng, gen=ctx.scale(20, 150)) if len(p) < 1500]
     run_guarded(ctx, stage_oracle, progs)
+    run_guarded(ctx, stage_accessor_caches, progs)
 
 
 def replay(path):
